@@ -7,6 +7,11 @@
 
 package flv
 
+import (
+	"bytes"
+	"io"
+)
+
 func prim_sameslice(a, b []byte) bool {
 	return len(a) == len(b) && (len(a) == 0 || &a[0] == &b[0])
 }
@@ -24,6 +29,16 @@ func prim_eqbytes(a, b []byte) bool {
 }
 
 func prim_fresh(a []byte) bool { return true } // "allocated during the call"; not observable at run time
+
+// prim_forall(n, f): f(i) holds for every 0 <= i < n
+func prim_forall(n int, f func(i int) bool) bool {
+	for i := 0; i < n; i++ {
+		if !f(i) {
+			return false
+		}
+	}
+	return true
+}
 
 // ---------- C10: audio tag body (E.4.2.1) ----------
 
@@ -343,6 +358,217 @@ func ens_OpusToHz(v AudioSamplingRate, ret0 int) bool {
 	return true
 }
 
+// ---------- ghost byte streams (engine primitives; bodies are never executed) ----------
+// A reader delivers data[pos..len) and then fails for ever with its terminal error (io.EOF for a clean end), whatever
+// the segmentation of the underlying reads. A writer accepts bytes until its limit and then fails with its error.
+
+func ghost_rd_pos(r io.Reader) int        { panic("ghost") }
+func ghost_old_rd_pos(r io.Reader) int    { panic("ghost") }
+func ghost_rd_len(r io.Reader) int        { panic("ghost") }
+func ghost_rd_at(r io.Reader, i int) byte { panic("ghost") }
+func ghost_rd_err(r io.Reader) error      { panic("ghost") }
+func ghost_wr_len(w io.Writer) int        { panic("ghost") }
+func ghost_old_wr_len(w io.Writer) int    { panic("ghost") }
+func ghost_wr_limit(w io.Writer) int      { panic("ghost") }
+func ghost_wr_at(w io.Writer, i int) byte { panic("ghost") }
+func ghost_ioerr() error                  { panic("ghost") }
+func ghost_old_ioerr() error              { panic("ghost") }
+func ghost_root(err error) error          { panic("ghost") }
+
+// C08 for one call: a transport failure during the call surfaces as an error whose root cause is that failure, and an
+// error is never fabricated from a healthy transport (other: the only non-transport error the call may return).
+func spec_errKeepsRoot(err error, other error) bool {
+	if ghost_old_ioerr() != nil {
+		return true
+	}
+	if ghost_ioerr() != nil {
+		return err != nil && ghost_root(err) == ghost_ioerr()
+	}
+	return err == nil || (other != nil && err == other)
+}
+
+// ---------- C09: FLV header (E.2) and PreviousTagSize0 (E.3) ----------
+
+//@ requires (*muxer).WriteHeader
+func req_WriteHeader(v *muxer) bool { return v.w != nil }
+
+// 'F' 'L' 'V', version 1, TypeFlagsAudio (bit 2) / TypeFlagsVideo (bit 0), DataOffset 9, PreviousTagSize0 = 0
+//@ ensures (*muxer).WriteHeader C09.header.layout
+func ens_WriteHeader_layout(v *muxer, hasVideo, hasAudio bool, err error) bool {
+	if err != nil {
+		return true
+	}
+	w, o := v.w, ghost_old_wr_len(v.w)
+	flags := byte(0)
+	if hasVideo {
+		flags |= 1
+	}
+	if hasAudio {
+		flags |= 4
+	}
+	return ghost_wr_len(w) == o+13 &&
+		ghost_wr_at(w, o) == 'F' && ghost_wr_at(w, o+1) == 'L' && ghost_wr_at(w, o+2) == 'V' && ghost_wr_at(w, o+3) == 1 && ghost_wr_at(w, o+4) == flags &&
+		ghost_wr_at(w, o+5) == 0 && ghost_wr_at(w, o+6) == 0 && ghost_wr_at(w, o+7) == 0 && ghost_wr_at(w, o+8) == 9 &&
+		ghost_wr_at(w, o+9) == 0 && ghost_wr_at(w, o+10) == 0 && ghost_wr_at(w, o+11) == 0 && ghost_wr_at(w, o+12) == 0
+}
+
+//@ ensures (*muxer).WriteHeader C08.flv.write-header
+func ens_WriteHeader_err(err error) bool { return spec_errKeepsRoot(err, nil) }
+
+//@ assigns (*muxer).WriteHeader ghost.wr(v.w), ghost.ioerr
+
+// ---------- C09: FLV tag (E.4.1) ----------
+
+//@ requires (*muxer).WriteTag
+func req_WriteTag(v *muxer, tag []byte) bool { return v.w != nil && len(tag) < 1<<24 }
+
+// TagType(8) DataSize(24) Timestamp(24) TimestampExtended(8) StreamID(24)=0, then the body, then PreviousTagSize = 11 + DataSize
+//@ ensures (*muxer).WriteTag C09.tag.layout
+func ens_WriteTag_layout(v *muxer, tagType TagType, timestamp uint32, tag []byte, err error) bool {
+	if err != nil {
+		return true
+	}
+	w, o, n := v.w, ghost_old_wr_len(v.w), len(tag)
+	if ghost_wr_len(w) != o+11+n+4 {
+		return false
+	}
+	if !(ghost_wr_at(w, o) == byte(tagType) &&
+		ghost_wr_at(w, o+1) == byte(n>>16) && ghost_wr_at(w, o+2) == byte(n>>8) && ghost_wr_at(w, o+3) == byte(n) &&
+		ghost_wr_at(w, o+4) == byte(timestamp>>16) && ghost_wr_at(w, o+5) == byte(timestamp>>8) && ghost_wr_at(w, o+6) == byte(timestamp) &&
+		ghost_wr_at(w, o+7) == byte(timestamp>>24) &&
+		ghost_wr_at(w, o+8) == 0 && ghost_wr_at(w, o+9) == 0 && ghost_wr_at(w, o+10) == 0) {
+		return false
+	}
+	pts := uint32(11 + n)
+	return ghost_wr_at(w, o+11+n) == byte(pts>>24) && ghost_wr_at(w, o+12+n) == byte(pts>>16) && ghost_wr_at(w, o+13+n) == byte(pts>>8) && ghost_wr_at(w, o+14+n) == byte(pts)
+}
+
+//@ ensures (*muxer).WriteTag C09.tag.body
+func ens_WriteTag_body(v *muxer, tag []byte, err error) bool {
+	if err != nil {
+		return true
+	}
+	w, o := v.w, ghost_old_wr_len(v.w)
+	return prim_forall(len(tag), func(i int) bool { return ghost_wr_at(w, o+11+i) == tag[i] })
+}
+
+//@ ensures (*muxer).WriteTag C08.flv.write-tag
+func ens_WriteTag_err(err error) bool { return spec_errKeepsRoot(err, nil) }
+
+//@ assigns (*muxer).WriteTag ghost.wr(v.w), ghost.ioerr
+
+// ---------- C09: demuxer ----------
+
+//@ requires (*demuxer).ReadHeader
+func req_ReadHeader(v *demuxer) bool { return v.r != nil }
+
+//@ ensures (*demuxer).ReadHeader C09.read-header
+func ens_ReadHeader(v *demuxer, version uint8, hasVideo, hasAudio bool, err error) bool {
+	r, p := v.r, ghost_old_rd_pos(v.r)
+	if err != nil {
+		return true
+	}
+	return ghost_rd_pos(r) == p+13 && ghost_rd_at(r, p) == 'F' && ghost_rd_at(r, p+1) == 'L' && ghost_rd_at(r, p+2) == 'V' &&
+		version == ghost_rd_at(r, p+3) && hasVideo == (ghost_rd_at(r, p+4)&1 == 1) && hasAudio == (ghost_rd_at(r, p+4)&4 == 4)
+}
+
+// a complete header with the right signature is accepted
+//@ ensures (*demuxer).ReadHeader C09.read-header.accepts
+func ens_ReadHeader_accepts(v *demuxer, err error) bool {
+	r, p := v.r, ghost_old_rd_pos(v.r)
+	if ghost_rd_len(r)-p >= 13 && ghost_rd_at(r, p) == 'F' && ghost_rd_at(r, p+1) == 'L' && ghost_rd_at(r, p+2) == 'V' {
+		return err == nil
+	}
+	return err != nil
+}
+
+//@ ensures (*demuxer).ReadHeader C08.flv.read-header
+func ens_ReadHeader_err(err error) bool { return spec_errKeepsRoot(err, errSignature) }
+
+//@ assigns (*demuxer).ReadHeader ghost.rd(v.r), ghost.ioerr
+
+//@ requires (*demuxer).ReadTagHeader
+func req_ReadTagHeader(v *demuxer) bool { return v.r != nil }
+
+//@ ensures (*demuxer).ReadTagHeader C09.read-tag-header
+func ens_ReadTagHeader(v *demuxer, tagType TagType, tagSize, timestamp uint32, err error) bool {
+	r, p := v.r, ghost_old_rd_pos(v.r)
+	if ghost_rd_len(r)-p < 11 {
+		return err != nil
+	}
+	b := func(i int) uint32 { return uint32(ghost_rd_at(r, p+i)) }
+	return err == nil && ghost_rd_pos(r) == p+11 && byte(tagType) == ghost_rd_at(r, p) &&
+		tagSize == b(1)<<16|b(2)<<8|b(3) && timestamp == b(7)<<24|b(4)<<16|b(5)<<8|b(6)
+}
+
+//@ ensures (*demuxer).ReadTagHeader C08.flv.read-tag-header
+func ens_ReadTagHeader_err(err error) bool { return spec_errKeepsRoot(err, nil) }
+
+//@ assigns (*demuxer).ReadTagHeader ghost.rd(v.r), ghost.ioerr
+
+//@ requires (*demuxer).ReadTag
+func req_ReadTag(v *demuxer, tagSize uint32) bool { return v.r != nil && tagSize < 1<<24 }
+
+// the body is exactly the next tagSize bytes (never truncated), and the PreviousTagSize field is skipped
+//@ ensures (*demuxer).ReadTag C09.read-tag.accepts
+func ens_ReadTag_accepts(v *demuxer, tagSize uint32, err error) bool {
+	return (err == nil) == (ghost_rd_len(v.r)-ghost_old_rd_pos(v.r) >= int(tagSize)+4)
+}
+
+//@ ensures (*demuxer).ReadTag C09.read-tag.advance C08.flv.read-tag.complete
+func ens_ReadTag_advance(v *demuxer, tagSize uint32, tag []byte, err error) bool {
+	if err != nil {
+		return true
+	}
+	return ghost_rd_pos(v.r) == ghost_old_rd_pos(v.r)+int(tagSize)+4 && len(tag) == int(tagSize)
+}
+
+//@ ensures (*demuxer).ReadTag C09.read-tag.body C08.flv.read-tag.body
+func ens_ReadTag_body(v *demuxer, tagSize uint32, tag []byte, err error) bool {
+	if err != nil {
+		return true
+	}
+	r, p := v.r, ghost_old_rd_pos(v.r)
+	return prim_forall(len(tag), func(i int) bool { return tag[i] == ghost_rd_at(r, p+i) })
+}
+
+//@ ensures (*demuxer).ReadTag C08.flv.read-tag
+func ens_ReadTag_err(err error) bool { return spec_errKeepsRoot(err, nil) }
+
+//@ assigns (*demuxer).ReadTag ghost.rd(v.r), ghost.ioerr
+
+// what the muxer writes, the demuxer reads back: any tag type, any 32-bit timestamp, any body below 2^24 bytes
+// (real bytes.Buffer as the file, real bytes.Reader to read it: both functions are inlined, not summarised)
+//@ requires lemma_C09_tagRoundtrip
+func req_lemma_tagRoundtrip(tag []byte) bool { return len(tag) < 1<<24 }
+
+//@ bounded lemma_C09_tagRoundtrip 1
+//@ lemma C09.tag-roundtrip
+func lemma_C09_tagRoundtrip(hasVideo, hasAudio bool, tagType TagType, timestamp uint32, tag []byte) bool {
+	var file bytes.Buffer
+	m := &muxer{w: &file}
+	if err := m.WriteHeader(hasVideo, hasAudio); err != nil {
+		return false
+	}
+	if err := m.WriteTag(tagType, timestamp, tag); err != nil {
+		return false
+	}
+	if file.Len() != 13+11+len(tag)+4 {
+		return false
+	}
+	d := &demuxer{r: bytes.NewReader(file.Bytes())}
+	ver, hv, ha, err := d.ReadHeader()
+	if err != nil || ver != 1 || hv != hasVideo || ha != hasAudio {
+		return false
+	}
+	tt, size, ts, err := d.ReadTagHeader()
+	if err != nil || tt != tagType || int(size) != len(tag) || ts != timestamp {
+		return false
+	}
+	body, err := d.ReadTag(size)
+	return err == nil && prim_eqbytes(body, tag)
+}
+
 // ---------- C07: totality of helpers, decoders never panic ----------
 
 //@ safe TagType.String C07
@@ -361,3 +587,6 @@ func ens_OpusToHz(v AudioSamplingRate, ret0 int) bool {
 //@ safe VideoFrameTrait.String C07
 //@ safe (*audioPackager).Decode C07
 //@ safe (*videoPackager).Decode C07
+//@ safe (*demuxer).ReadHeader C07
+//@ safe (*demuxer).ReadTagHeader C07
+//@ safe (*demuxer).ReadTag C07
